@@ -528,6 +528,7 @@ func runC09(r *vk.Run) {
 	r.Require("compared_points", 5000)
 	r.Require("edge_samples", 1000)
 	r.Require("shared_T_comparisons", 2000)
+	phaseFlaky(r, "C09")
 	r.Require("distinct:step_vs_range", 3)
 }
 
